@@ -31,14 +31,17 @@ type C07Plan struct {
 	// Delivery (forbidden kind): "" = in order; "skipParent" = the bad node leaves out the header just before the forbidden
 	// one in its reply, "beforeParent" = it sends the forbidden header ahead of its parent: either way the forbidden header
 	// arrives while its parent is unknown to the service
-	Delivery  string          `json:"delivery,omitempty"`
-	BadCap    int             `json:"badCap"` // reply cap of the bad node
-	BadSpec   simnet.NodeSpec `json:"badSpec"`
-	Honest    int             `json:"honest"` // number of honest nodes (1-2)
-	HonestCap int             `json:"honestCap"`
-	BadFirst  bool            `json:"badFirst"` // the bad node is the only node until its offence was observed (it is "chosen first")
-	FinalAnn  bool            `json:"finalAnn"` // an honest node announces a new block at the end
-	BanMs     int             `json:"banMs"`
+	Delivery string `json:"delivery,omitempty"`
+	// NoConvergence (checkpoint kind, generator only): the plan's convergence needs the sync-peer rotation timer; only the
+	// containment oracles are applied
+	NoConvergence bool            `json:"noConvergence,omitempty"`
+	BadCap        int             `json:"badCap"` // reply cap of the bad node
+	BadSpec       simnet.NodeSpec `json:"badSpec"`
+	Honest        int             `json:"honest"` // number of honest nodes (1-2)
+	HonestCap     int             `json:"honestCap"`
+	BadFirst      bool            `json:"badFirst"` // the bad node is the only node until its offence was observed (it is "chosen first")
+	FinalAnn      bool            `json:"finalAnn"` // an honest node announces a new block at the end
+	BanMs         int             `json:"banMs"`
 	// Strict: after a checkpoint offence, demand convergence on the honest chain and that no contradicting header stays
 	// on the longest chain. The search pass sets it only where the open finding
 	// C07-checkpoint-contradiction-stored-before-verified does not apply (legacy engine, single checkpoint, final announcement).
@@ -280,11 +283,19 @@ func runC07Once(p *C07Plan, long bool) (*stats.Case, error) {
 	// (3) legacy + forbidden: the host is banned: no request reaches it during the ban
 	banChecked := false
 	if sawOffence && p.Engine == "legacy" && p.Kind == "forbidden" && p.BanMs >= 1500 {
-		g0 := badNode.Stat().GetHeaders
-		time.Sleep(time.Duration(p.BanMs-600) * time.Millisecond)
-		if g1 := badNode.Stat().GetHeaders; g1 != g0 {
-			return nil, fmt.Errorf("banned host received %d getheaders during its ban of %d ms", g1-g0, p.BanMs)
+		tOff := badNode.FirstOffenceAt()
+		// the bad node drops its other connections: the service dials replacements, some of them to the banned host
+		badNode.DropAll()
+		time.Sleep(time.Until(tOff.Add(time.Duration(p.BanMs-400) * time.Millisecond)))
+		// a connection from the banned host must be dropped at once: none whose handshake completed well inside the ban may
+		// have been kept for 1.5 s. (A getheaders on such a connection is NOT counted: the sync manager is told about a new
+		// peer before the server's admission check runs, so a connection that is dropped a moment later may have been asked.)
+		asked, longLived, attempts := badNode.AdmittedDetail(tOff.Add(150*time.Millisecond), tOff.Add(time.Duration(p.BanMs-2000)*time.Millisecond), 1500*time.Millisecond)
+		if longLived > 0 {
+			return nil, fmt.Errorf("%d of %d connections to the banned host made during its ban of %d ms were kept open for 1.5 s or more (admitted as peers)", longLived, attempts, p.BanMs)
 		}
+		stats.Count("ban_window_getheaders_before_admission_check", int64(asked))
+		stats.Count("ban_window_connection_attempts", int64(attempts))
 		banChecked = true
 	}
 	// (4) descendants of the forbidden header can only be orphans
@@ -323,7 +334,6 @@ func runC07Once(p *C07Plan, long bool) (*stats.Case, error) {
 		target = ext
 	}
 	if p.Kind == "checkpoint" && !p.Strict {
-		stats.Exclude("C07-checkpoint-contradiction-stored-before-verified")
 		cl := map[string]int64{"scenarios": 1, "kind_" + p.Kind: 1, "engine_" + p.Engine: 1, "offence_observed": b2i(sawOffence), "convergence_not_demanded": 1}
 		return &stats.Case{Sig: stats.Sig(fmt.Sprintf("%+v", *p)), Nontrivial: sawOffence, Classes: cl, Sample: p}, nil
 	}
@@ -372,7 +382,7 @@ func genC07(t *rapid.T) *C07Plan {
 	p.Honest = rapid.IntRange(1, 2).Draw(t, "nh")
 	p.HonestCap = 2000
 	p.FinalAnn = true
-	p.BanMs = rapid.SampledFrom([]int{0, 0, 2000}).Draw(t, "ban")
+	p.BanMs = rapid.SampledFrom([]int{0, 0, 3000}).Draw(t, "ban")
 	p.BadSpec.Pver = rapid.SampledFrom([]uint32{70015, 70011}).Draw(t, "pver")
 	switch p.Kind {
 	case "forbidden":
@@ -411,7 +421,15 @@ func genC07(t *rapid.T) *C07Plan {
 		// (announcements of other peers are ignored below the last checkpoint): that is C06's lagging-sync-peer class,
 		// which needs the manager's rotation timer; a bad branch that reaches a later checkpoint as well is the open
 		// finding C07-checkpoint-contradiction-stored-before-verified.
-		switch rapid.SampledFrom([]string{"single", "below", "between"}).Draw(t, "cps") {
+		switch rapid.SampledFrom([]string{"single", "below", "between", "above"}).Draw(t, "cps") {
+		case "above":
+			// an intermediate checkpoint is contradicted: a later one lies out of the bad branch's reach. Legacy engine:
+			// containment only (the service may end on another connection of the bad node below the last checkpoint, from
+			// where it moves on only by the sync-peer rotation: C06's slow class)
+			if c+5 <= p.HonestLen-1 {
+				p.Checkpoints = []int{c, rapid.IntRange(c+4, p.HonestLen-1).Draw(t, "cpabove")}
+				p.NoConvergence = p.Engine == "legacy"
+			}
 		case "below":
 			if p.ForkAt >= 1 {
 				p.Checkpoints = []int{rapid.IntRange(1, p.ForkAt).Draw(t, "cpa"), c}
@@ -439,7 +457,7 @@ func genC07(t *rapid.T) *C07Plan {
 		if over := p.ForkAt + p.BadLen - (p.HonestLen - 1); over > 0 {
 			p.BadLen -= over
 		}
-		p.Strict = true
+		p.Strict = !p.NoConvergence
 	}
 	return p
 }
